@@ -1,5 +1,6 @@
 /- h3model: line-protocol driver of the Lean model (one op per line on stdin, one answer per line) -/
 import H3Model.OpsCore
+import H3Model.OpsTrav
 
 open H3 H3.Ops
 
@@ -10,7 +11,10 @@ def runLine (line : String) : String :=
   | op :: args =>
     match opsCore op args with
     | some r => r
-    | none => "bad-op"
+    | none =>
+      match opsTrav op args with
+      | some r => r
+      | none => "bad-op"
 
 partial def loop (hin : IO.FS.Stream) (hout : IO.FS.Stream) : IO Unit := do
   let line ← hin.getLine
